@@ -308,11 +308,6 @@ def run_fixture(ctx, cfg, ops, f):
     except (pddl_reader.Unsupported, sexpr.Reject, KeyError, IndexError, ValueError):
         ctx.probes["fixture_unsupported"] += 1
         raise Skip()
-    if any(a.get("pre_single_literal") for F in files for a in F["actions"].values()):
-        # ':precondition (p ...)' without 'and' is outside the fragment the domain parser supports (it raises or drops
-        # the literal: parse fidelity, C01); such a directory is no workload for the union property
-        ctx.probes["fixture_outside_supported_fragment"] += 1
-        raise Skip()
     ctx.profile = "shipped-directory"
     ctx.probes["fixture_directory"] += 1
     ctx.log("fixture", name)
@@ -633,6 +628,10 @@ def check_union(ctx, w, union, W, dummy, what):
                                                    f"extra={sorted(set(got_actions) - set(want_actions))}")
     for a in want_actions:
         if G.canon_action(got_actions[a]) != G.canon_action(want_actions[a]):
+            g, x = G.canon_action(got_actions[a]), G.canon_action(want_actions[a])
+            part = next((k for k in ("params", "pre", "eff") if g.get(k) != x.get(k)), "?") if isinstance(g, dict) else "?"
+            ctx.note(f"action {a} got:  {C.short(g, 900)}")
+            ctx.note(f"action {a} want: {C.short(x, 900)}")
             raise Violation("C17/union-differs", site, f"{what}: action {a} differs from its declaration")
     if w["name"] != W.D["name"]:
         raise Violation("C17/union-differs", site, f"{what}: name {w['name']}")
